@@ -1,0 +1,58 @@
+//go:build verif
+
+// Replay builders for package codecs (see proxycore/zz_verif_replay.go).
+
+package codecs
+
+import (
+	"bytes"
+	"fmt"
+
+	"github.com/datastax/go-cassandra-native-protocol/message"
+	"github.com/datastax/go-cassandra-native-protocol/primitive"
+)
+
+// verifReplayExecute: builds a valid EXECUTE body with the reference codec for the given version
+// and id lengths, decodes it with the partial codec, re-encodes it, and compares field by field and
+// byte by byte.
+func verifReplayExecute(version primitive.ProtocolVersion, idLen int, rmLen int) error {
+	switch version {
+	case primitive.ProtocolVersion3, primitive.ProtocolVersion4, primitive.ProtocolVersion5, primitive.ProtocolVersionDse1, primitive.ProtocolVersionDse2:
+	default:
+		return nil // not a version the reference codec can produce
+	}
+	if idLen <= 0 || idLen > 64 {
+		idLen = 16
+	}
+	if rmLen <= 0 || rmLen > 64 {
+		rmLen = 16
+	}
+	id := bytes.Repeat([]byte{0xAB}, idLen)
+	rm := bytes.Repeat([]byte{0xCD}, rmLen)
+	ref := &message.Execute{QueryId: id, ResultMetadataId: rm, Options: &message.QueryOptions{Consistency: primitive.ConsistencyLevelQuorum}}
+	var body bytes.Buffer
+	if err := builtinExecuteCodec.Encode(ref, &body, version); err != nil {
+		return nil
+	}
+	orig := append([]byte{}, body.Bytes()...)
+	c := &partialExecuteCodec{}
+	msg, err := c.Decode(NewFrameBodyReader(orig), version)
+	if err != nil {
+		return fmt.Errorf("partial EXECUTE decode of a valid %v body failed: %v", version, err)
+	}
+	pe := msg.(*PartialExecute)
+	if !bytes.Equal(pe.QueryId, id) || pe.Consistency != primitive.ConsistencyLevelQuorum {
+		return fmt.Errorf("partial EXECUTE decode (%v) extracted id=%x consistency=%v, reference has id=%x consistency=QUORUM", version, pe.QueryId, pe.Consistency, id)
+	}
+	if version.SupportsResultMetadataId() && !bytes.Equal(pe.ResultMetadataId, rm) {
+		return fmt.Errorf("partial EXECUTE decode (%v) lost the result metadata id: got %x, want %x", version, pe.ResultMetadataId, rm)
+	}
+	var out bytes.Buffer
+	if err := c.Encode(msg, &out, version); err != nil {
+		return fmt.Errorf("re-encode failed: %v", err)
+	}
+	if !bytes.Equal(out.Bytes(), orig) {
+		return fmt.Errorf("EXECUTE round trip (%v) changed the bytes:\n got %x\nwant %x", version, out.Bytes(), orig)
+	}
+	return nil
+}
